@@ -6,6 +6,11 @@ From FxV Require Import gen.Gen_TimeoutRules model.M_Pool.
 Import ListNotations.
 Open Scope Z_scope.
 
+(* operations of a history: the model's operations, plus the genesis round trip of the module *)
+Inductive xop := XO (o : op) | XExportImport.
+Definition xstep (s : state) (x : xop) : state * list event * res :=
+  match x with XO o => step s o | XExportImport => (export_import s, [], Ok) end.
+
 Record obs := {
   o_ok : bool;
   o_pool : list tx;
@@ -23,7 +28,7 @@ Record obs := {
 
 Record pool_case := {
   pc_prm : params; pc_toks : list (Z * tkind); pc_keys : list acct_key; pc_bal0 : list Z; pc_h0 : Z;
-  pc_steps : list (op * obs)
+  pc_steps : list (xop * obs)
 }.
 
 Definition mk_obs ok p b bb c1 c2 c3 cs bs fm pd e x f bl ev : obs :=
@@ -80,11 +85,11 @@ Definition step_diff (keys : list acct_key) (s' : state) (evs : list event) (r :
   ++ (if list_eqb Z.eqb (map (get_bal (bal s')) keys) (o_bals ob) then [] else [10])
   ++ (if list_eqb pairZ_eqb (flat_map ev_proj evs) (o_events ob) then [] else [11]).
 
-Fixpoint steps_diag (keys : list acct_key) (i : Z) (s : state) (steps : list (op * obs)) : list (Z * list Z) :=
+Fixpoint steps_diag (keys : list acct_key) (i : Z) (s : state) (steps : list (xop * obs)) : list (Z * list Z) :=
   match steps with
   | [] => []
   | (o, ob) :: r =>
-      let '(s', evs, rs) := step s o in
+      let '(s', evs, rs) := xstep s o in
       match step_diff keys s' evs rs ob with
       | [] => steps_diag keys (i + 1) s' r
       | d => [(i, d)]
